@@ -24,13 +24,14 @@ Open Scope N_scope.
 
 (* DATA tie.  The strings implemented by the hand-written matcher and printer (rendered from
    the model's field widths 5/4/4/2, separator '-', literal " (version ", ')') are the two
-   patterns passed to re.match in create_from_str (in source order) and the string constants
-   of cfgid_str (two formats) and __str__ ("", " ", name-only format); UNKNOWN is 9999.
+   patterns passed to re.match in create_from_str (in source order) and the template string
+   constants (those with a replacement field) of cfgid_str (two formats) and __str__ (name-only
+   format); UNKNOWN is 9999.  Plain strings (separators, keyword names) are behaviour, not data.
    The CODE (control flow, which group feeds which field) is tied by the correspondence. *)
 Theorem C12_source_tie :
   CFGID_PATTERN_NUMERIC = model_pattern_numeric /\ CFGID_PATTERN_NAMEONLY = model_pattern_nameonly /\
   CFGID_CFGIDSTR_STRINGS = [model_fmt_devsettings; model_fmt_full] /\
-  CFGID_STR_STRINGS = [[]; [32]; model_fmt_nameonly] /\ CFGID_UNKNOWN = 9999.
+  CFGID_STR_STRINGS = [model_fmt_nameonly] /\ CFGID_UNKNOWN = 9999.
 Proof. repeat split. Qed.
 Print Assumptions C12_source_tie.
 
